@@ -1,0 +1,145 @@
+//go:build verif
+
+package vgirpc
+
+import (
+	"bytes"
+	"io"
+	"log/slog"
+	"net/http"
+	"net/http/httptest"
+	"sort"
+	"strconv"
+	"strings"
+	"time"
+)
+
+// Verification hooks for property C26 (token introspection). Add-only; compiled
+// only with -tags verif. Nothing here changes the behaviour of the route: the
+// hooks read the limiter's state, move its window start (the code reads
+// time.Now() directly, so simulated time is "the window started d earlier"),
+// and set the window length so that simulated ticks dwarf real elapsed time.
+
+// VerifIntrospectEnabled reports whether the route currently resolves anything.
+func VerifIntrospectEnabled(h *HttpServer) bool { return h.introspect != nil }
+
+// VerifIntrospectSetWindow sets the limiter's window length.
+func VerifIntrospectSetWindow(h *HttpServer, d time.Duration) {
+	if h.introspect == nil {
+		return
+	}
+	l := h.introspect.limiter
+	l.mu.Lock()
+	l.window = d
+	l.mu.Unlock()
+}
+
+// VerifIntrospectShiftWindow moves the limiter's window start d into the past
+// (d may be negative). A limiter that has never admitted anything has no window
+// to move.
+func VerifIntrospectShiftWindow(h *HttpServer, d time.Duration) {
+	if h.introspect == nil {
+		return
+	}
+	l := h.introspect.limiter
+	l.mu.Lock()
+	if !l.windowStart.IsZero() {
+		l.windowStart = l.windowStart.Add(-d)
+	}
+	l.mu.Unlock()
+}
+
+// VerifIntrospectLimiterState returns a canonical fingerprint of the limiter:
+// whether a window has started, its start, and the per-caller counts.
+func VerifIntrospectLimiterState(h *HttpServer) (perWindow int, window time.Duration, fingerprint string) {
+	if h.introspect == nil {
+		return 0, 0, ""
+	}
+	l := h.introspect.limiter
+	l.mu.Lock()
+	defer l.mu.Unlock()
+	keys := make([]string, 0, len(l.counts))
+	for k := range l.counts {
+		keys = append(keys, k)
+	}
+	sort.Strings(keys)
+	var b strings.Builder
+	b.WriteString(strconv.FormatInt(l.windowStart.UnixNano(), 10))
+	if l.windowStart.IsZero() {
+		b.WriteString("/zero")
+	}
+	for _, k := range keys {
+		b.WriteString("|" + strconv.Quote(k) + "=" + strconv.Itoa(l.counts[k]))
+	}
+	return l.perWindow, l.window, b.String()
+}
+
+// verifIntrospectProbe drives the real route once per refusal class and returns
+// the bodies it wrote, so the models are stated over what the handler emits and
+// not over a hand copy of its string literals.
+func verifIntrospectProbe() (notEnabled, forbidden, unresolved, limited, unavailable string, window time.Duration) {
+	prev := slog.Default()
+	slog.SetDefault(slog.New(slog.NewTextHandler(io.Discard, nil)))
+	defer slog.SetDefault(prev)
+
+	h := NewHttpServer(NewServer())
+	post := func(principal, token string) string {
+		req := httptest.NewRequest(http.MethodPost, IntrospectEndpoint, bytes.NewReader([]byte(`{"token":"`+token+`"}`)))
+		req.Header.Set("Content-Type", "application/json")
+		if principal != "" {
+			req.Header.Set("X-Verif-Principal", principal)
+		}
+		w := httptest.NewRecorder()
+		h.ServeHTTP(w, req)
+		return w.Body.String()
+	}
+	notEnabled = post("probe", "opaque")
+	h.SetAuthenticate(func(r *http.Request) (*AuthContext, error) {
+		p := r.Header.Get("X-Verif-Principal")
+		if p == "" {
+			return Anonymous(), nil
+		}
+		return &AuthContext{Domain: "verif", Authenticated: true, Principal: p}, nil
+	})
+	if err := h.EnableTokenIntrospection(TokenIntrospectionConfig{
+		Principals:         []string{"probe"},
+		RateLimitPerSecond: 1,
+		Resolver: func(c string) (TokenIdentity, bool, error) {
+			if c == "down" {
+				return TokenIdentity{}, false, NewAuthUnavailable("probe")
+			}
+			return TokenIdentity{}, false, nil
+		},
+	}); err != nil {
+		panic(err)
+	}
+	window = h.introspect.limiter.window
+	VerifIntrospectSetWindow(h, 1000*time.Hour)
+	forbidden = post("", "opaque")
+	unresolved = post("probe", "opaque")
+	limited = post("probe", "opaque")
+	VerifIntrospectShiftWindow(h, 2000*time.Hour)
+	unavailable = post("probe", "down")
+	return
+}
+
+func init() {
+	verifConstProviders = append(verifConstProviders, func() []VerifConst {
+		ne, fb, un, lim, unav, window := verifIntrospectProbe()
+		return []VerifConst{
+			verifNum("introspect_max_body_bytes", introspectMaxBodyBytes),
+			verifNum("introspect_max_token_chars", introspectMaxTokenChars),
+			verifNum("introspect_default_ttl", introspectDefaultTTLSeconds),
+			verifNum("introspect_default_rate", introspectDefaultRateLimit),
+			verifNum("introspect_window_ns", int64(window)),
+			verifNum("auth_default_retry_after", defaultAuthRetryAfterSeconds),
+			verifBytes("introspect_jws_regex", introspectJWSShaped.String()),
+			verifBytes("introspect_endpoint", IntrospectEndpoint),
+			verifBytes("introspect_body_not_enabled", ne),
+			verifBytes("introspect_body_403", fb),
+			verifBytes("introspect_body_404", un),
+			verifBytes("introspect_body_429", lim),
+			verifBytes("introspect_body_503", unav),
+		}
+	})
+}
